@@ -47,8 +47,20 @@ def run(chk, replay=None):
     for t in range(n_eval):
         shape = SHAPES[t % 4]
         nc, nb = shape
-        style = rng.choice(['wide', 'close', 'equalish'])
-        if style == 'wide':
+        style = rng.choice(['wide', 'close', 'equalish', 'dyadic'])
+        if style == 'dyadic':
+            # B = A with the rates of disjoint bin pairs exchanged; all rates are small multiples of 1/64, so both totals are
+            # the same float whatever the summation order and the null median is exactly 0.  The two bins of a pair then have
+            # differences +x and -x exactly (float subtraction is anti-commutative): exact ties ACROSS signs.
+            ks = rng.sample(range(3, 400), NB)
+            a = [k / 64.0 for k in ks]
+            b = list(a)
+            idxs = list(range(NB))
+            rng.shuffle(idxs)
+            for q in range(0, NB - 1, 2):
+                i, j = idxs[q], idxs[q + 1]
+                b[i], b[j] = a[j], a[i]
+        elif style == 'wide':
             a = [10 ** rng.uniform(-9, 1) for _ in range(NB)]
             b = [10 ** rng.uniform(-9, 1) for _ in range(NB)]
         elif style == 'close':
@@ -104,14 +116,17 @@ def run(chk, replay=None):
         # ties are only trusted between events whose two rates are bitwise identical (then the library's float differences
         # are identical too); two different rate pairs whose |d| agree to 1e-9 could be ordered either way by rounding
         groups = {}
+        mirror_ok = (n1 == n2)        # null median exactly 0: (a, b) and (b, a) give exactly opposite differences
         for j, x in zip(ev_bins, d):
-            groups.setdefault((float(da[j - 1]), float(db[j - 1])), abs(x))
+            pair = (float(da[j - 1]), float(db[j - 1]))
+            key = frozenset(pair) if mirror_ok and pair[0] != pair[1] else pair
+            groups.setdefault(key, abs(x))
         gv = sorted(groups.values())
         robust = all(gv[i + 1] - gv[i] > mp.mpf('1e-9') * gv[i + 1] for i in range(len(gv) - 1)) and all(x > mp.mpf('1e-12') for x in gv)
         distinct = any(x != 0 for x in d)
         if robust and distinct:
             rank = {v: k + 1 for k, v in enumerate(absd)}
-            pat = [[1 if x > 0 else -1, rank[abs(x)]] for x in d]
+            pat = [[0, 1] if x == 0 else [1 if x > 0 else -1, rank[abs(x)]] for x in d]
             traces.append(dict(base, kind='w', binary=False, pat=pat))
             metas.append({'what': 'w_test', 'ab': rw_ab, 'ba': rw_ba, 'rates': rates, 'n': n, 'style': style, 'scale': scale, 'same': same})
         if len(set(bins)) < len(bins):
